@@ -132,7 +132,52 @@ func (m *Machine) stub(fn *ssa.Function, args []Value) (Value, bool) {
 		return nil, true
 	case name == "crypto/ed25519.Verify":
 		m.called["ed25519.Verify"] = true
-		return m.sigValid("ed25519", m.cellsOf(args[0]), m.cellsOf(args[1]), m.cellsOf(args[2])), true
+		if a, ok := args[0].(Slice); ok && a.len != 32 {
+			m.end("gopanic", "ed25519: bad public key length")
+		}
+		return m.sigValid(true, "ed25519", m.cellsOf(args[0]), m.cellsOf(args[1]), m.cellsOf(args[2])), true
+	case name == "crypto/ed25519.VerifyWithOptions":
+		m.called["ed25519.VerifyWithOptions"] = true
+		v := m.sigValid(true, "ed25519ph", m.cellsOf(args[0]), m.cellsOf(args[1]), m.cellsOf(args[2]))
+		if m.branch(v) {
+			return Iface{}, true
+		}
+		return m.newErr("ed25519: invalid signature", nil), true
+	case name == "crypto/ed25519.Sign":
+		m.called["ed25519.Sign"] = true
+		return m.signStub("ed25519", args[0], args[1]), true
+	case name == "(crypto/ed25519.PrivateKey).Sign":
+		m.called["ed25519.PrivateKey.Sign"] = true
+		return Tuple{m.signStub("ed25519ph", args[0], args[2]), Iface{}}, true
+	case name == "crypto/sha256.Sum256":
+		m.called["sha256.Sum256"] = true
+		cells := m.idealHash(m.cellsOf(args[0]))
+		node := m.newNode(32)
+		for i, c := range cells {
+			node.elems[i] = c
+		}
+		return node, true
+	case name == "github.com/go-i2p/common/data.HashReader":
+		m.end("unsupported", "data.HashReader (io.Reader based hashing is not modelled)")
+	case name == "crypto/rand.Read" || name == "io.ReadFull" && false:
+		sl := args[0].(Slice)
+		m.varSeq++
+		for i := 0; i < sl.len; i++ {
+			sl.node.elems[sl.off+i] = m.tt.Var(8, fmt.Sprintf("rnd%d_%d", m.varSeq, i))
+		}
+		m.noteWrite(sl.node, "crypto/rand.Read")
+		return Tuple{m.tt.Const(64, uint64(sl.len)), Iface{}}, true
+	case strings.HasSuffix(name, ".NewVerifier") && (strings.Contains(name, "crypto/dsa.DSAPublicKey") || strings.Contains(name, "crypto/ecdsa.ECP")):
+		alg := "dsa"
+		switch {
+		case strings.Contains(name, "ECP256"):
+			alg = "ecdsa-p256"
+		case strings.Contains(name, "ECP384"):
+			alg = "ecdsa-p384"
+		case strings.Contains(name, "ECP521"):
+			alg = "ecdsa-p521"
+		}
+		return Tuple{Iface{typ: results.At(0).Type(), val: &StubVerifier{alg: alg, key: m.cellsOf(args[0])}}, Iface{}}, true
 	case name == "fmt.Sprintf":
 		return m.strConst("<sprintf>"), true
 	case name == "bytes.Equal":
@@ -237,6 +282,7 @@ func initPkg(p string) bool {
 }
 
 type sigApp struct {
+	lib    bool // applied by a library-side stub (not by the nd.SigValid oracle)
 	alg    string
 	cells  []*Term
 	kl, ml int
@@ -244,9 +290,10 @@ type sigApp struct {
 }
 
 // sigValid is the uninterpreted validity predicate V(alg,key,msg,sig), Ackermannised over a per-path log.
-func (m *Machine) sigValid(alg string, key, msg, sig []*Term) *Term {
+func (m *Machine) sigValid(lib bool, alg string, key, msg, sig []*Term) *Term {
+	m.inLibSig = lib
 	cells := append(append(append([]*Term{}, key...), msg...), sig...)
-	for _, a := range m.sigLog {
+	for ai, a := range m.sigLog {
 		if a.alg == alg && a.kl == len(key) && a.ml == len(msg) && len(a.cells) == len(cells) {
 			same := true
 			for i := range cells {
@@ -256,6 +303,9 @@ func (m *Machine) sigValid(alg string, key, msg, sig []*Term) *Term {
 				}
 			}
 			if same {
+				if m.inLibSig {
+					m.sigLog[ai].lib = true
+				}
 				return a.res
 			}
 		}
@@ -271,7 +321,7 @@ func (m *Machine) sigValid(alg string, key, msg, sig []*Term) *Term {
 			m.sol().Assert(m.tt.Or(m.tt.Not(eq), m.tt.Cmp("=", res, a.res)))
 		}
 	}
-	m.sigLog = append(m.sigLog, sigApp{alg, cells, len(key), len(msg), res})
+	m.sigLog = append(m.sigLog, sigApp{m.inLibSig, alg, cells, len(key), len(msg), res})
 	return res
 }
 
@@ -330,4 +380,48 @@ func execPkg(p string) bool {
 		return true
 	}
 	return false
+}
+
+// StubVerifier is the verifier object returned by the stubbed NewVerifier of DSA / ECDSA keys.
+type StubVerifier struct {
+	alg string
+	key []*Term
+}
+
+// verifierInvoke handles Verify / VerifyHash on a StubVerifier: the uninterpreted predicate V.
+func (m *Machine) verifierInvoke(v *StubVerifier, method string, args []Value) Value {
+	switch method {
+	case "Verify", "VerifyHash":
+		alg := v.alg
+		if method == "VerifyHash" {
+			alg += "-hash"
+		}
+		m.called[v.alg+".Verify"] = true
+		ok := m.sigValid(true, alg, v.key, m.cellsOf(args[0]), m.cellsOf(args[1]))
+		if m.branch(ok) {
+			return Iface{}
+		}
+		return m.newErr("invalid signature", nil)
+	}
+	m.end("unsupported", "method "+method+" on stub verifier")
+	return nil
+}
+
+// signStub models Sign(sk, msg): fresh signature bytes sigma with V(alg, pub(sk), msg, sigma) = true,
+// pub(sk) being the last 32 bytes of a 64-byte Ed25519 private key.
+func (m *Machine) signStub(alg string, sk, msg Value) Value {
+	skc := m.cellsOf(sk)
+	if len(skc) != 64 {
+		m.end("gopanic", fmt.Sprintf("ed25519: bad private key length: %d", len(skc)))
+	}
+	m.varSeq++
+	node := m.newNode(64)
+	sig := make([]*Term, 64)
+	for i := range sig {
+		sig[i] = m.tt.Var(8, fmt.Sprintf("sig%d_%d", m.varSeq, i))
+		node.elems[i] = sig[i]
+	}
+	v := m.sigValid(true, alg, skc[32:], m.cellsOf(msg), sig)
+	m.sol().Assert(v)
+	return Slice{node, 0, 64, 64}
 }
